@@ -155,6 +155,35 @@ example : (((mkSpec [0, 1, 2, 3, 4, 5, 6] [10, 11, 12, 13, 14, 15, 16] 1).inRang
 example : ((mkSpec [0, 1, 2, 3, 4, 5, 6] [10, 11, 12, 13, 14, 15, 16] 1).pipeline 1 6 [(3, 4)] 2).nppb = 2 := by
   decide +kernel
 
+/-- **exclude_memoryless.**  What `_exclude_range` keeps is determined by the frequency/power arrays of the spectrum
+    it is applied to and by the requested ranges alone: the bookkeeping the object carries from earlier calls
+    (`_excluded_ranges`, `_fit_range`, `num_points_per_block`, …) does not enter; in particular a range that was
+    excluded before is applied again in full, to whatever frequencies the spectrum has by now. -/
+theorem exclude_memoryless (s t : Spec) (ranges : List (Rat × Rat))
+    (hf : s.freq = t.freq) (hp : s.power = t.power) (hlen : s.freq.length = s.power.length) :
+    (s.excludeRange ranges).freq = (t.excludeRange ranges).freq ∧
+      (s.excludeRange ranges).power = (t.excludeRange ranges).power ∧
+      (s.excludeRange ranges).freq = s.freq.filter (notExcluded ranges) := by
+  refine ⟨?_, ?_, ?_⟩
+  · simp only [Spec.excludeRange, hf, hp]
+  · simp only [Spec.excludeRange, hf, hp]
+  · exact (exclude_spec ranges s.freq s.power hlen).2.1
+
+/-- non-vacuity of `exclude_memoryless`: two spectra with the same arrays and different histories (`t` has the range
+    on record as already excluded) -/
+example : (mkSpec [0, 3, 4, 5] [10, 13, 14, 15] 2).freq
+      = ({ mkSpec [0, 3, 4, 5] [10, 13, 14, 15] 2 with excluded := [(1, 3)] } : Spec).freq ∧
+    (mkSpec [0, 3, 4, 5] [10, 13, 14, 15] 2).freq.length = (mkSpec [0, 3, 4, 5] [10, 13, 14, 15] 2).power.length := by
+  decide +kernel
+
+/-- excluding the same range again is NOT redundant once the spectrum has been block averaged: after `[1, 3)` has been
+    removed from bins 0…5 the block (0, 3) straddles the gap, its mean 3/2 lies inside the range, and the second
+    exclusion has to remove it (kernel-checked witness) -/
+example :
+    (((mkSpec [0, 1, 2, 3, 4, 5] [10, 11, 12, 13, 14, 15] 1).excludeRange [(1, 3)]).downsampledBy 2).freq = [3/2, 9/2] ∧
+    ((((mkSpec [0, 1, 2, 3, 4, 5] [10, 11, 12, 13, 14, 15] 1).excludeRange [(1, 3)]).downsampledBy 2).excludeRange
+      [(1, 3)]).freq = [9/2] := by decide +kernel
+
 /-! ## `identify_peaks` -/
 
 section peaks
